@@ -14,8 +14,9 @@ case: {"hw": model string (optional), "gens": [{"name", "acl", "prog"}], ["probe
 out: {"gens": [ {"noacl": R, "acl": R} ], "old_new": R2}
   R   := {"ok": tree} | {"err": [kind, payload]}
          kind: "invalid" (InvalidValueFromGenerator), "none" (the None assertion), "parse" (ParserError: [lineno,row]),
-               "acl" (AclError: payload = path list), "other"
-  R2  := {"ok": tree} | {"err": [kind, payload]}   kind additionally "exclusive": payload [path list, [generator names]]
+               "acl" (AclError: payload = its text "parent / row"), "compile" (NotImplementedError from
+               compile_acl_text), "other"
+  R2  := {"ok": tree} | {"err": [kind, payload]}   kind additionally "exclusive": payload ["parent/ row", [generator names]]
 """
 import re
 from collections import OrderedDict as odict
@@ -139,15 +140,17 @@ def classify(exc):
     if isinstance(cause, patching.AclNotExclusiveError):
         m = re.match(r"^'(.*)', generators: '(.*)'$", str(cause), re.S)
         if m:
-            return ["exclusive", [m.group(1).split("/ "), m.group(2).split(", ")]]
+            return ["exclusive", [m.group(1), m.group(2).split(", ")]]
         return ["other", "AclNotExclusiveError:" + str(cause)]
     if isinstance(cause, patching.AclError):
-        return ["acl", str(cause).split(" / ")]
+        return ["acl", str(cause)]
     if isinstance(cause, tabparser.ParserError):
         m = re.match(r"Invalid top indention: line (\d+): (.*)$", str(cause), re.S)
         if m:
             return ["parse", [int(m.group(1)), m.group(2)]]
         return ["other", "ParserError:" + str(cause)]
+    if isinstance(cause, NotImplementedError):
+        return ["compile", ""]
     if isinstance(cause, InvalidValueFromGenerator):
         return ["invalid", ""]
     if isinstance(cause, AssertionError) and str(cause).startswith("Found 'None' in yield result"):
@@ -199,10 +202,20 @@ def old_new(case, dev):
     return {"ok": tree_json(res.new)}
 
 
+def union(case, dev, use_acl):
+    """run_partial_generators(...).config_tree()"""
+    try:
+        res = generators.run_partial_generators([make_gen(g) for g in case["gens"]], [],
+                                                GeneratorPartialRunArgs(dev, use_acl=use_acl))
+        return {"ok": tree_json(res.config_tree())}
+    except Exception as e:  # noqa
+        return {"err": classify(e)}
+
+
 def one(case):
     hw = case.get("hw") or DEFAULT_HW
     dev = _Dev(hw)
-    out = {"gens": []}
+    out = {"gens": [], "union_noacl": union(case, dev, False)}
     for g in case["gens"]:
         o = {"noacl": run_one_gen(g, dev, False), "acl": run_one_gen(g, dev, True)}
         if case.get("probe_paths"):
